@@ -11,7 +11,9 @@ u(x) = a.(x - c) + b  (c = centroid of the vertices; this is every affine functi
         (1/2 M + K) g = V psi
       I1/dp0:  M = identity(P1 -> ., dual DP0),  K = double_layer(P1, DP0, DP0),  V = single_layer(DP0, DP0, DP0)
       I1/p1 :  M = identity(P1 -> ., dual P1),   K = double_layer(P1, P1, P1),    V = single_layer(DP0, P1, P1)
-      I1/dp1:  the same with dual space DP1 (thorough / deep only)
+      I1/dp1:  the same with dual space DP1
+      (I1/p1 and I1/dp1: thorough / deep only, on a few small meshes; the quick tier checks ONE of I1/dp0, I2/p1 per run,
+      drawn from ctx.rng, because every identity costs about five Numba specialisations)
     The identity holds pointwise a.e. on the surface, so it may be tested with ANY dual space D: all three matrices have
     dual_to_range = D and both sides are vectors of length D.global_dof_count (functionals on D).  The range space
     does not enter weak_form(); it is set equal to D.
@@ -25,8 +27,8 @@ u(x) = a.(x - c) + b  (c = centroid of the vertices; this is every affine functi
 
 Both identities are exact for the exact Galerkin integrals on every polyhedron (affine traces are in the discrete
 spaces), so the residual is quadrature error only.  For every mesh the matrices are assembled along the order ladder
-(regular, singular) = (4,4) (6,6) (8,8) (10,10) (12,10) and for every rung the worst relative residual
-||lhs - rhs||_2 / ||rhs||_2 over the affine test functions is recorded.  Criteria (calibrated on /repo, see CAL_* and the
+(regular, singular) = (4,4) (6,6) (8,8) (10,10) (12,10) [(14,12) (16,14)] and for every rung the worst relative residual
+||lhs - rhs||_2 / ||rhs||_2 over the affine test functions is recorded.  Criteria (calibrated on /repo, see the
 `margin_*` / `worst_*` stats):
 
   * every rung:     residual <= RUNG_BOUND[rung]   (about 10 x the worst value seen in calibration; this is the
@@ -65,9 +67,9 @@ TARGET = 1e-6                         # the statement's bound ...
 TARGET_RUNG = 4                       # ... is judged from (12,10) on: a mesh that has not reached it there climbs on
 EXTEND_MAX_ELEMENTS = 120
 # calibrated on the unchanged /repo tree: about 10 x the worst relative residual seen per rung over all mesh families /
-# variants / seeds (worst seen: 2.0e-2, 4.2e-4, 3.0e-5, 1.4e-5, 2.9e-6, see the builder's report; the `worst_<rung>` stats
-# repeat the measurement on every run)
-RUNG_BOUND = {(4, 4): 1.5e-1, (6, 6): 4e-3, (8, 8): 3e-4, (10, 10): 1e-4, (12, 10): 2e-5, (14, 12): 5e-6, (16, 14): 1e-6}
+# variants / seeds (worst seen: 2.1e-2, 4.2e-4, 3.0e-5, 1.4e-5, 2.9e-6, 2.5e-7, 5.0e-8; the `worst_<rung>` stats repeat
+# the measurement on every run)
+RUNG_BOUND = {(4, 4): 1.5e-1, (6, 6): 4e-3, (8, 8): 3e-4, (10, 10): 1e-4, (12, 10): 2e-5, (14, 12): 3e-6, (16, 14): 1e-6}
 CONST_BOUND = dict(RUNG_BOUND)        # ||(1/2 M + K) 1|| / ||1/2 M 1||
 NONINCR = 1.5                         # a rung may not be worse than 1.5 x the previous one ...
 DECAY2 = 0.3                          # ... and two rungs up the residual must have shrunk to 30 % (observed <= 0.1) ...
@@ -366,14 +368,17 @@ def _plan(ctx, deep):
     var_pool = [{"perturb"}, {"rigid"}, {"relabel"}, {"perturb", "rigid", "relabel"}, {"scale", "relabel"},
                 {"stretch", "perturb"}, {"perturb", "relabel", "scale"}]
     if not ctx.thorough and not deep:
-        # quick: one non-trivial mesh on the full ladder (small), one genus-1 / multi on a shorter ladder, one convex
+        # quick: a non-convex and a convex small mesh on the full ladder (climbing on until 1e-6), a genus-1 /
+        # multi-component one and a fourth one up to (10,10) with the calibrated bound
         nontriv = rng.choice(["lshape", "lshape-alt"])
         second = rng.choice(["torus", "union:tetrahedron+octahedron", "union:cube1+tetrahedron"])
         convex = rng.choice(["tetrahedron", "octahedron", "cube1", "icosahedron"])
+        third = rng.choice(["cube2", "union:lshape+icosahedron", "lshape", "cube1"])
         return [
-            (nontriv, set(rng.choice(var_pool[:5])) | {"relabel"}, 3, False),
+            (nontriv, set(rng.choice(var_pool[:5])) | {"relabel"}, 4, True),
             (convex, set(rng.choice(var_pool)), 4, True),
-            (second, set(rng.choice(var_pool[:4])), 2, False),
+            (second, set(rng.choice(var_pool[:4])), 3, False),
+            (third, set(rng.choice(var_pool)), 3, False),
         ]
     names = ["tetrahedron", "octahedron", "cube1", "icosahedron", "lshape", "lshape-alt", "torus", "cube2",
              "union:tetrahedron+octahedron", "union:cube1+tetrahedron", "union:lshape+icosahedron", "cube3"]
@@ -404,8 +409,15 @@ def oracle(ctx, deep=False, cal=False, only=None):
     rng = ctx.rng
     old_threads = numba.get_num_threads()
     numba.set_num_threads(max(1, min(old_threads, int(os.environ.get("VERIF_ORACLE_THREADS", "1")))))
-    budget = float(os.environ.get("C01_ORACLE_BUDGET_S", "0")) or (ctx.pick(135.0, 840.0) if not deep else 3000.0)
-    idents = ["I1/dp0", "I2/p1"]
+    budget = float(os.environ.get("C01_ORACLE_BUDGET_S", "0")) or (ctx.pick(100.0, 780.0) if not deep else 3000.0)
+    # every identity costs about 5 Numba specialisations (the JIT is most of the quick tier's time): quick checks ONE of
+    # the two identities, drawn from ctx.rng (C01_IDENTS overrides), thorough / deep both plus the extra dual spaces
+    if os.environ.get("C01_IDENTS"):
+        idents = os.environ["C01_IDENTS"].split(",")
+    elif ctx.thorough or deep:
+        idents = ["I1/dp0", "I2/p1"]
+    else:
+        idents = [rng.choice(["I1/dp0", "I2/p1"])]
     extra_idents = ["I1/p1", "I1/dp1"] if (ctx.thorough or deep) else []
     n_random = ctx.pick(2, 3) if not deep else 5
     worst = {}      # (ident, rung) -> worst residual (non-constant functions)
